@@ -260,8 +260,42 @@ def check_measure(ctx):
             raise AnalysisError('%s: no measure literal found' % path)
 
 
+def check_ctor_stores(ctx):
+    """a filter object remembers exactly what it was given: `self.<p> = <p>` for threshold / overlap_size / comp_op /
+    tokenizer / allow_empty / allow_missing (the measure name may be upper-cased). A coerced value (`int(..)`, a
+    default substituted, another parameter) makes every later decision use something the caller did not ask for."""
+    repo = ctx.repo
+    from .common import FILTERS, FILTER_BASE
+    n = 0
+    inits = [repo.fn(path, cls + '.__init__') for cls, (path, _, _) in sorted(FILTERS.items())] + [repo.fn(FILTER_BASE, 'Filter.__init__')]
+    for f in inits:
+        for st in walk_own(f.node):
+            if not (isinstance(st, ast.Assign) and len(st.targets) == 1 and isinstance(st.targets[0], ast.Attribute)
+                    and U(st.targets[0].value) == 'self'):
+                continue
+            attr = st.targets[0].attr
+            used = [x.id for x in ast.walk(st.value) if isinstance(x, ast.Name) and x.id in f.params and x.id != 'self']
+            if not used:
+                continue
+            n += 1
+            v = st.value
+            ok = isinstance(v, ast.Name) and v.id == attr
+            if attr == 'sim_measure_type':
+                ok = ok or (isinstance(v, ast.Call) and isinstance(v.func, ast.Attribute) and v.func.attr == 'upper'
+                            and U(v.func.value) == attr and not v.args)
+            if not ok and isinstance(v, ast.Name):
+                # a local computed from the parameter: only the upper-cased measure name is accepted
+                vx = view_of(f).expand(v, st)
+                ok = attr == 'sim_measure_type' and U(vx) in ('sim_measure_type.upper()', 'sim_measure_type')
+            ctx.check('R-WIRE/ctor-store', f, 'self.%s' % attr, ok,
+                      'the constructor stores `%s` as self.%s: the filter must keep the value it was given' % (U(v)[:50], attr), st,
+                      sample='self.%s = %s' % (attr, U(v)[:40]))
+    ctx.floor('R-WIRE/ctor-store', n, 18, 'constructor stores')
+
+
 def run(ctx, ordering=True, same=True, rows=True, arrays=True, measure=True):
     ctx.group('R-WIRE')
+    check_ctor_stores(ctx)
     if ordering:
         check_ordering(ctx)
     if same:
